@@ -76,17 +76,21 @@ def config_space(L, dt, tier):
            ("savitzky_and_golay", 5), ("savitzky_and_golay", 9)]
     fcs = {"mid": [0.1 * fs, 0.2 * fs, 0.3 * fs],
            "offgrid": [0.123 * fs, 0.277 * fs, 0.41 * fs],
-           "wide": [0.03 * fs, 0.15 * fs, 0.35 * fs, 0.495 * fs]}
+           "wide": [0.03 * fs, 0.15 * fs, 0.35 * fs, 0.495 * fs],
+           # the same kind of request given as Python ints (an all-integer vector)
+           "ints": [int(v) for v in (2, 5, 10, 20, 30) if v < 0.42 * fs and v > 1.5 * df]}
     space = dict(
-        fft=["nopad", "default", "n65536", "n16"],
+        fft=["nopad", "default", "n65536", "n16", "nopad_ortho", "n65536_forward"],
         smoothing=[list(o) for o in ops],
         tukey=[0.1, 0.0, 0.5, 1.0],
-        fcs=["mid", "offgrid", "wide"],
+        fcs=["mid", "offgrid", "wide", "ints"],
     )
     return space, fcs
 
 
-FFT_REQ = {"nopad": lambda: {"n": None}, "default": lambda: None,
+FFT_REQ = {"nopad_ortho": lambda: {"n": None, "norm": "ortho"},      # a normalisation keyword scales H and V alike
+           "n65536_forward": lambda: {"n": 65536, "norm": "forward"},
+           "nopad": lambda: {"n": None}, "default": lambda: None,
            "n65536": lambda: {"n": 65536}, "n16": lambda: {"n": 16}}
 
 
@@ -364,7 +368,7 @@ def run_root(root, ctx, tier):
     space, fcs_sets = config_space(L, dt, tier)
     nwin = kind.get("nwin", 2 if root["wi"] % 2 else 1)
     tag = _kind_tag(kind)
-    nopad = dict(space, fft=["nopad"])
+    nopad = dict(space, fft=["nopad", "nopad_ortho"])
     if tier == "quick":
         cases = [(c, _ndev(space, c) <= 1) for c in product.deviations(nopad, 2)]
     else:
@@ -372,7 +376,7 @@ def run_root(root, ctx, tier):
     # padded FFT paths (reference costs ~0.5 s per case): first window, one kind per formula,
     # FFT request x (default or one other deviation)
     if root["wi"] == 0 and kind in HEAVY_KINDS:
-        padded = dict(space, fft=space["fft"][1:])
+        padded = dict(space, fft=[f for f in space["fft"] if not f.startswith("nopad")])
         for c in product.deviations(padded, 1 if tier == "quick" else 2):
             if tier == "quick" and c["smoothing"] != space["smoothing"][0] and c["smoothing"][1] != \
                     [o for o in space["smoothing"] if o[0] == c["smoothing"][0]][0][1]:
@@ -444,11 +448,11 @@ def _one_case(ctx, root, kind, tag, w, nwin, cfg, fcs, metamorphic=True):
     if not ok_cols.any():
         return
     if not close(amp[:, ok_cols], ref[:, ok_cols], rtol=RTOL):
-        ctx.violation(f"C01:{tag}:ratio:{cfg['smoothing'][0]}:{'padded' if cfg['fft'] != 'nopad' else 'nopad'}",
+        ctx.violation(f"C01:{tag}:ratio:{cfg['smoothing'][0]}:{'nopad' if cfg['fft'].startswith('nopad') else 'padded'}",
                       root, detail=dict(detail, fft_n=n), expected=ref.tolist(), observed=amp.tolist(),
                       explanation="curve differs from smoothed combined-horizontal / smoothed vertical amplitude "
                                   "spectrum of the tapered zero-padded window")
-    if cfg["fft"] != "nopad" or not metamorphic:
+    if not cfg["fft"].startswith("nopad") or not metamorphic:
         return      # metamorphic claims on the cheap path, low-deviation cases
     # (iii) metamorphic claims (fresh settings with the same resolved FFT length)
     def again(factors=(1.0, 1.0, 1.0), proportional=None, kind2=None):
@@ -456,7 +460,7 @@ def _one_case(ctx, root, kind, tag, w, nwin, cfg, fcs, metamorphic=True):
         r2 = run_process(make_records(w, nwin, factors, proportional), s2)
         ctx.count("transitions")
         return r2
-    for c in (1e-3, 7.0, -2.0):
+    for c in (1e-3, 7.0, -2.0, 1e-18, 1e18):       # "any amplitude scale": also far from unity
         r2 = again((c, c, c))
         if r2[0] != "ok" or not close(r2[1], amp, rtol=RTOL):
             ctx.violation(f"C01:{tag}:common-factor", root, detail=dict(detail, factor=c),
